@@ -131,6 +131,19 @@ def r16a(ctx: Context) -> None:
                                 rule.fail(key, where(func, node), f"the API puts '{element.value}' on the command line but no add_argument registers it: the API call fails (or means something else) where the command line works")
     if emitted < 8:
         raise AnalysisError(f"only {emitted} option strings found in the API")
+    # each option is emitted under a condition on its own setting: one setting must not switch another off
+    for func in api.methods.values():
+        for node in walk_local(func.node):
+            if not (isinstance(node, ast.Call) and isinstance(node.func, ast.Attribute) and node.func.attr in ("append", "extend")):
+                continue
+            options = [e.value for a in node.args for e in (a.elts if isinstance(a, (ast.Tuple, ast.List)) else [a]) if isinstance(e, ast.Constant) and isinstance(e.value, str) and e.value.startswith("-")]
+            if not options:
+                continue
+            for test, polarity in guards_of(func.node, node):
+                text = norm(test)
+                if not polarity and "inherit_logging" not in text:
+                    rule.fail(f"{func.short}: option {options[0]} suppressed", where(func, node), f"the API leaves out '{options[0]}' whenever '{text}' holds: one setting silently switches another off, so the API run differs from the command line given the same settings")
+            rule.ok(f"{func.short}: option {options[0]} guard", "emitted under its own setting")
     builder = api.methods.get("__build_common_arguments")
     if builder is None:
         raise AnalysisError("PyMarkdownApi.__build_common_arguments missing")
@@ -174,7 +187,9 @@ def r16b(ctx: Context) -> None:
     stdin = prog.method(FSH, "__scan_from_stdin")
     writes = [n for n in walk_local(stdin.node) if isinstance(n, ast.Call) and isinstance(n.func, ast.Attribute) and n.func.attr == "write"]
     texts = {norm(w.args[0]) for w in writes if w.args}
-    if "string_to_scan" in texts and "line" in texts:
+    stdin_loop_vars = {n.target.id for n in walk_local(stdin.node) if isinstance(n, ast.For) and isinstance(n.target, ast.Name) and norm(n.iter) == "sys.stdin"}
+    plain = all(isinstance(w.args[0], ast.Name) and (w.args[0].id in stdin.params or w.args[0].id in stdin_loop_vars) for w in writes if w.args)
+    if plain and len(writes) >= 2 and stdin_loop_vars:
         rule.ok(func_key(stdin) + ": spooled verbatim", "string and stdin lines are written unchanged")
     else:
         rule.fail(func_key(stdin) + ": spooled verbatim", where(stdin), f"the spool file is written from {sorted(texts)}: the text is altered before it is scanned")
